@@ -387,11 +387,19 @@ class C46(Check):
             for kind in KINDS:
                 for gmt in GMT_OFFSETS:
                     parts.append(("fd", ni, kind, gmt))
+        # the same inputs in a process whose local time zone is not UTC (TZ=XYZ5): nothing in the statement depends on it
+        for kind in KINDS:
+            parts.append(("fd", 0, kind, GMT_OFFSETS[0], "XYZ5"))
         return parts
 
     # ---- execution --------------------------------------------------------
     def run_partition(self, part, tier, st):
         from tornado import locale as tl
+        import os
+        import time
+        # worker processes are reused: every partition states its time zone
+        os.environ["TZ"] = part[4] if (part[0] == "fd" and len(part) > 4) else "UTC"
+        time.tzset()
         if part[0] in ("fn", "fn-special"):
             nums = range(part[1], part[2] + 1) if part[0] == "fn" else fn_special()
             locs = [(c, en_locale(tl, c)) for c in FN_CODES]
@@ -416,7 +424,7 @@ class C46(Check):
                 st.sample({"friendly_number": 10 ** 18,
                            "got": locs[0][1].friendly_number(10 ** 18)})
             return
-        _, ni, kind, gmt = part
+        _, ni, kind, gmt = part[:4]
         now = NOWS[ni]
         loc = en_locale(tl, "en_US")
         real_dt_mod = tl.datetime
